@@ -4,7 +4,7 @@ TRUSTED_BASE = [
     'cxx2c lowering (tools/cxx2c*.py): clang-14 JSON AST of the instantiated real functions -> C; rules in DESIGN.md 2.1',
     'clang-14 front end (template instantiation, overload resolution, implicit conversions)',
     'CBMC 6.11.0 (goto-cc, goto-instrument --dfcc, SAT back end)',
-    'std:: models in specs/vp_models.h, vp_models_impl.h (ostream/string as token logs, unique_lock as depth counter, unique_ptr as owning pointer, std::function call = conforming reporter)',
+    'std:: models in specs/vp_models.h, vp_models_impl.h (ostream/string as token logs, unique_lock as depth counter, unique_ptr as owning pointer, std::function call = conforming reporter; in the range-matcher units std::function = tagged closure copy, std::vector = fixed-capacity array, std algorithms = the loops they stand for)',
     'conforming reporter: severity fatal => throws, nonfatal => returns (docs/reference.md)',
     'single-threaded semantics (C12 not claimed); 64-bit size_t; templates verified only at the instantiations of tools/driver_tu.cpp',
     'user clauses (WITH/SIDE_EFFECT/RETURN lambdas) are contract-only stubs that do not re-enter the library',
@@ -37,8 +37,8 @@ for fn in ('IS_SATISFIED', 'IS_SATURATED', 'IS_FORBIDDEN', 'INCREMENT_CALL', 'SE
 # report paths, destructors, sequences) - lowered once, used by the h_world.c obligations
 _II = 'IFiiE'
 UNITS['world_ii'] = {
-    'opaque': [' get_lock$'],
-    'dyn_types': [r'^sequence_handler<[012]>$', r'^call_matcher<int\(int\),std::tuple<wildcard>>$'],
+    'opaque': [' get_lock$', r'8vp_retfncl'],
+    'dyn_types': [r'^sequence_handler<[012]>$', r'^call_matcher<int\(int\),std::tuple<wildcard>>$', r'^return_handler_t<int\(int\),vp_vp_retfn>$'],
     'ghost_fields': {r'^condition_base<int\(int\)>$': ['_Bool g_result'], r'^side_effect_base<int\(int\)>$': ['int g_throws'],
                      r'^return_handler<int\(int\)>$': ['int g_throws', 'int g_value']},
     'roots': {
@@ -46,7 +46,7 @@ UNITS['world_ii'] = {
         'CM': r'rec:^call_matcher<int\(int\),std::tuple<wildcard>>$', 'CMB': r'rec:^call_matcher_base<int\(int\)>$',
         'SH0': 'rec:^sequence_handler<0>$', 'SH1': 'rec:^sequence_handler<1>$', 'SH2': 'rec:^sequence_handler<2>$',
         'SM': 'rec:^sequence_matcher$', 'ST': 'rec:^sequence_type$', 'EXPS': r'rec:^expectations<false,int\(int\)>$',
-        'COND': r'rec:^condition_base<int\(int\)>$', 'SEFF': r'rec:^side_effect_base<int\(int\)>$', 'RETH': r'rec:^return_handler<int\(int\)>$',
+        'COND': r'rec:^condition_base<int\(int\)>$', 'SEFF': r'rec:^side_effect_base<int\(int\)>$', 'RETH': r'rec:^return_handler<int\(int\)>$', 'RETHT': r'rec:^return_handler_t<int\(int\),vp_vp_retfn>$', 'RETFN': 'rec:^vp_vp_retfn$',
         'CM_DTOR': r'dtor:^call_matcher<int\(int\),std::tuple<wildcard>>$', 'EXPS_DTOR': r'dtor:^expectations<false,int\(int\)>$',
         'ST_DTOR': 'dtor:^sequence_type$', 'COND_DTOR': r'dtor:^condition_base<int\(int\)>$', 'SEFF_DTOR': r'dtor:^side_effect_base<int\(int\)>$',
         'IS_COMPLETED': '13sequence_type12is_completedEv',
@@ -54,7 +54,7 @@ UNITS['world_ii'] = {
     },
     'stub_aliases': {
         'VS_COND_CHECK': r'^vs_.*condition_baseIFiiEE5check', 'VS_COND_NAME': r'^vs_.*condition_baseIFiiEE4name', 'VS_ACTION': r'^vs_.*side_effect_baseIFiiEE6action',
-        'VS_RET_CALL': r'^vs_.*return_handlerIFiiEE4call', 'VS_TRACE': r'^vs_.*6tracer5trace',
+        'VS_RET_CALL': r'^vs_.*return_handlerIFiiEE4call', 'RETFN_CALL': r'^f_.*8vp_retfncl', 'VS_TRACE': r'^vs_.*6tracer5trace',
         'VS_DTOR_COND': '^vs_dtor_S_condition_base_int_int$', 'VS_DTOR_SEFF': '^vs_dtor_S_side_effect_base_int_int$', 'VS_DTOR_RETH': '^vs_dtor_S_return_handler_int_int$',
         'VS_CMB_MATCHES': r'^vs_.*call_matcher_baseIFiiEE7matches', 'VS_CMB_COST': r'^vs_.*call_matcher_baseIFiiEE13sequence_cost',
         'VS_CMB_RUN_ACTIONS': r'^vs_.*call_matcher_baseIFiiEE11run_actions', 'VS_CMB_RETURN_VALUE': r'^vs_.*call_matcher_baseIFiiEE12return_value',
